@@ -258,6 +258,18 @@ void body(ctx_t& c)
         }
     }
 
+    // ... in any order (the interface takes a list of sample indices, not a sorted set)
+    bool shuffled = false;
+    if (r.coin(0.3))
+    {
+        for (tensor_size_t i = samples.size() - 1; i > 0; --i)
+        {
+            std::swap(samples(i), samples(r.range(0, i)));
+        }
+        shuffled = true;
+        c.probe("fit_samples_in_arbitrary_order");
+    }
+
     const auto& target = schema.features[schema.target];
     strings_t   loss_ids;
     if (target.is_sclass())
@@ -293,7 +305,7 @@ void body(ctx_t& c)
     std::ostringstream d;
     d << (which < 4 ? "linear" : "gboost") << " loss=" << loss->type_id() << " samples=" << samples.size() << "/" << dataset.samples()
       << " features=" << dataset.features() << " pool=" << dataset.concurrency() << " cores=" << c.cfg.cores << " folds=" << folds
-      << " splitter=" << splitter->type_id() << " batch=" << batch;
+      << " splitter=" << splitter->type_id() << " batch=" << batch << (shuffled ? " shuffled" : "");
 
     std::string why;
     if (which < 4)
@@ -369,29 +381,43 @@ void body(ctx_t& c)
 
     // ---- gradient boosting
     auto model = gboost_model_t{};
-    const auto max_rounds = r.range(10, 18);
+    const auto max_rounds = r.coin(0.5) ? 10 : r.range(10, 18); // (the library's minimum budget is 10: there the last round is most often an accepted one)
     const auto patience   = r.range(1, 4);
     const auto epsilon    = r.pick(std::vector<double>{1e-8, 1e-6, 1e-3, 1e-2});
-    model.parameter("gboost::max_rounds")      = max_rounds;
-    model.parameter("gboost::patience")        = patience;
-    model.parameter("gboost::epsilon")         = epsilon;
-    model.parameter("gboost::batch")           = batch;
-    model.parameter("gboost::seed")            = r.range(0, 1024);
-    model.parameter("gboost::wscale")          = r.pick(std::vector<string_t>{"gboost", "tboost"});
-    model.parameter("gboost::shrinkage")       = r.pick(std::vector<string_t>{"off", "off", "global", "local"});
-    model.parameter("gboost::subsample")       = r.pick(std::vector<string_t>{"off", "off", "subsample", "bootstrap", "wei_loss_bootstrap", "wei_grad_bootstrap"});
-    model.parameter("gboost::subsample_ratio") = r.real(0.5, 1.0);
-    rwlearners_t protos;
+    const auto gseed      = r.range(0, 1024);
+    const auto wscale     = r.pick(std::vector<string_t>{"gboost", "tboost"});
+    const auto shrinkage  = r.pick(std::vector<string_t>{"off", "off", "global", "local"});
+    const auto subsample  = r.pick(std::vector<string_t>{"off", "off", "subsample", "bootstrap", "wei_loss_bootstrap", "wei_grad_bootstrap"});
+    const auto ssratio    = r.real(0.5, 1.0);
+    strings_t    proto_ids;
     std::string  proto_names;
     for (const auto& id : wlearner_t::all().ids())
     {
-        if (r.coin(0.45) || protos.empty())
+        if (r.coin(0.45) || proto_ids.empty())
         {
-            protos.emplace_back(wlearner_t::all().get(id));
+            proto_ids.push_back(id);
             proto_names += id + ",";
         }
     }
-    model.prototypes(std::move(protos));
+    const auto configure = [&](gboost_model_t& m, const int64_t rounds)
+    {
+        m.parameter("gboost::max_rounds")      = rounds;
+        m.parameter("gboost::patience")        = patience;
+        m.parameter("gboost::epsilon")         = epsilon;
+        m.parameter("gboost::batch")           = batch;
+        m.parameter("gboost::seed")            = gseed;
+        m.parameter("gboost::wscale")          = wscale;
+        m.parameter("gboost::shrinkage")       = shrinkage;
+        m.parameter("gboost::subsample")       = subsample;
+        m.parameter("gboost::subsample_ratio") = ssratio;
+        rwlearners_t protos;
+        for (const auto& id : proto_ids)
+        {
+            protos.emplace_back(wlearner_t::all().get(id));
+        }
+        m.prototypes(std::move(protos));
+    };
+    configure(model, max_rounds);
     d << " rounds=" << max_rounds << " patience=" << patience << " epsilon=" << epsilon << " wscale=" << pstr(model.parameter("gboost::wscale"))
       << " shrinkage=" << pstr(model.parameter("gboost::shrinkage")) << " subsample=" << pstr(model.parameter("gboost::subsample"))
       << " protos=" << proto_names;
@@ -559,6 +585,95 @@ void body(ctx_t& c)
                             !same_stats(result.stats(ml::value_type::losses), stats_of(losses), 1e-9 * cond, why)))
         {
             c.fail("final-statistics-differ", "gboost: final statistics are not those of the returned model on the fit samples: " + why);
+        }
+    }
+    // early stopping against a LONGER history of the same fit: on one core two fits that differ only in max_rounds go through
+    // bit-identical rounds; the per-round history the longer fit kept tells which round the shorter fit must keep (the
+    // monitor of the statement applied to that history, cut at the shorter budget)
+    if (!c.failed() && r.coin(0.35))
+    {
+        simrt_set_cores(1);
+        auto dataset1 = dataset_t{source, 1U};
+        vf::add_identity_generators(dataset1);
+        const auto extra = patience + r.range(1, 3);
+        auto short_model = gboost_model_t{}, long_model = gboost_model_t{};
+        configure(short_model, max_rounds);
+        configure(long_model, max_rounds + extra);
+        const auto rs = short_model.fit(dataset1, samples, *loss, params);
+        const auto rl = long_model.fit(dataset1, samples, *loss, params);
+        c.probe("longer_history_differentials");
+        for (tensor_size_t ts = 0; ts < rs.trials() && !c.failed(); ++ts)
+        {
+            // the same hyper-parameter values in both results (the tuner may walk differently once the budgets matter)
+            tensor_size_t tl = -1;
+            for (tensor_size_t t = 0; t < rl.trials() && tl < 0; ++t)
+            {
+                if (vf::bit_identical(rs.params(ts), rl.params(t)))
+                {
+                    tl = t;
+                }
+            }
+            if (tl < 0)
+            {
+                continue;
+            }
+            for (tensor_size_t fold = 0; fold < rs.folds() && !c.failed(); ++fold)
+            {
+                const auto* ss = std::any_cast<gboost::result_t>(&rs.extra(ts, fold));
+                const auto* sl = std::any_cast<gboost::result_t>(&rl.extra(tl, fold));
+                if (ss == nullptr || sl == nullptr)
+                {
+                    continue;
+                }
+                const auto& hs = ss->m_statistics;
+                const auto& hl = sl->m_statistics;
+                const auto  opt_s = hs.size<0>() - 1, opt_l = hl.size<0>() - 1;
+                // common prefix must be the same rounds (else the two fits are not comparable: not this clause's business)
+                bool same_prefix = opt_s >= 0 && opt_l >= 0;
+                for (tensor_size_t j = 0; same_prefix && j <= std::min(opt_s, opt_l); ++j)
+                {
+                    same_prefix = vf::bits(hs(j, 0)) == vf::bits(hl(j, 0)) && vf::bits(hs(j, 2)) == vf::bits(hl(j, 2));
+                }
+                if (!same_prefix)
+                {
+                    c.probe("longer_history_not_comparable");
+                    continue;
+                }
+                tensor_size_t expected = opt_l;
+                if (opt_l > max_rounds)
+                {
+                    // the longer fit went on past the shorter budget: replay the monitor on rounds 0..max_rounds
+                    double        value    = std::numeric_limits<double>::max();
+                    tensor_size_t accepted = 0;
+                    for (tensor_size_t j = 0; j <= max_rounds; ++j)
+                    {
+                        if (hl(j, 0) < epsilon)
+                        {
+                            accepted = j;
+                            break;
+                        }
+                        if (hl(j, 2) < value - epsilon)
+                        {
+                            value    = hl(j, 2);
+                            accepted = j;
+                        }
+                        else if (!(j < accepted + patience))
+                        {
+                            break;
+                        }
+                    }
+                    expected = accepted;
+                }
+                c.probe(opt_l >= max_rounds ? "longer_history_reaches_the_shorter_budget" : "longer_history_stops_before_the_shorter_budget");
+                if (opt_s != expected)
+                {
+                    c.fail("kept-round-differs-from-monitor",
+                           "gboost (trial " + std::to_string(ts) + ", fold " + std::to_string(fold) + ", max_rounds " + std::to_string(max_rounds) +
+                               ", patience " + std::to_string(patience) + "): the fold model keeps round " + std::to_string(opt_s) +
+                               " but the monitor applied to the history of the same fit with max_rounds " + std::to_string(max_rounds + extra) +
+                               " (kept up to round " + std::to_string(opt_l) + ") keeps round " + std::to_string(expected));
+                }
+            }
         }
     }
     c.dig(result.stats(ml::value_type::errors).m_mean);
